@@ -17,10 +17,12 @@ TRUSTED = ["pyserial behaviour = fake port (write/readline succeed, b'' on timeo
            "the conforming EBB device (reply = request name, comma, payload) as written in tools/harness/props/ebb3sim.py"]
 ASSUMPTIONS = ["replies are ASCII lines; faults are SerialException; payloads of name-correct replies are well-formed for the method that parses them"]
 
-REQS = ["QM", "V", "I", "QB", "QS", "QG", "A", "QP", "QE", "QC", "QT", "PI,B,1", "QL,3", "I,1", "S,1", "QR", "ES", "Q1", "T3", "S2,1", "QL,{0}", "QT{}", "Q%s"]
+REQS = ["QM", "V", "I", "QB", "QS", "QG", "A", "QP", "QE", "QC", "QT", "PI,B,1", "QL,3", "I,1", "S,1", "QR", "ES", "Q1", "T3", "S2,1", "QL,{0}", "QT{}", "Q%s",
+        "QL, 3", "PI,B ,1", "QL,\t3"]          # white space next to an interior comma is part of the text: only the ends are trimmed
 CMDS = ["EM,1,1", "SP,1,100", "TP", "SM,100,0,0", "R", "RB", "BL", "CS", "SC,4,16000", "S,2", "XM,10,1,1", "T3,1,0,0,0,0,0,0,3", "CU,50,0",
         "T3,1,0,0,0,0,0,0,3", "S2,0,4,50,10", "L3,1,2,3,4,5,6,7,8", "L3", "S2", "T3", "TD,1,2", "LM,1,2,3,4,5,6", "LT,5,1,0,1,0",      # names whose second character is a digit, and their letter-only neighbours
-        "B", "L,1,2", "b,7", "l", "LB", "BR", "r,1", "C", "N,1", "O,1,2,3", "Z", "ST,{AxiDraw}", "SM,{0},1", "ST,100%d", "SL,{"]        # one-letter names, incl. the letters of the reboot-class names
+        "B", "L,1,2", "b,7", "l", "LB", "BR", "r,1", "C", "N,1", "O,1,2,3", "Z", "ST,{AxiDraw}", "SM,{0},1", "ST,100%d", "SL,{",
+        "SM, 100,0,0", "SM,100 ,0,0", "ST,Doe, J", "ST,a ,\tb", "SP,1, 100"]        # one-letter names, incl. the letters of the reboot-class names
 WS = ["", "", " ", "\t", " \r\n", "  ", "", " ", "\x1f", "\x1c\x1d ", "\xa0", "\u2003", "\x85\t"]       # str.strip() removes every str.isspace() character, not the six ASCII ones only
 
 def _expected(call, events):
@@ -60,7 +62,7 @@ def _variants(rng):
             for n in (rng.randint(1, 750), 1600, 0):
                 out.append((m, ("pause", n)))
         elif m == "write_nick":
-            out += [(m, ("write_nick", "Bot")), (m, ("write_nick", "  "))]
+            out += [(m, ("write_nick", "Bot")), (m, ("write_nick", "  ")), (m, ("write_nick", "Doe, J"))]
         else:
             out.append((m, S.sample_call(m, rng)))
     return out
